@@ -180,12 +180,19 @@ def build(m, **kw):
             return cls(list(m['values']), **kw)
         if fc == 43:
             ids = [i for i, _ in m['objects']]
-            if len(set(ids)) != len(ids) or m['conformity'] != 0x83 or m['more'] or m['next']:
-                raise Unrepresentable('constructed device-id response computes these itself')
+            if len(set(ids)) != len(ids):
+                raise Unrepresentable('a constructed device-id response holds one value per object id')
             info = {}
             for i, v in m['objects']:
                 info[i] = bytes(v)
-            return cls(m['read_code'], info, **kw)
+            o = cls(m['read_code'], info, **kw)
+            # conformity level and the paging fields are public attributes the application (a gateway forwarding a page, a device
+            # with its own paging) may set after construction; encode() has to carry them
+            if m['conformity'] != 0x83:
+                o.conformity = m['conformity']
+            if m['more'] or m['next']:
+                o.more_follows, o.next_object_id = m['more'], m['next']
+            return o
     raise Unrepresentable(repr(m))
 
 
